@@ -158,7 +158,9 @@ class Check(common.Check):
                     ref = num(refv, refv.denominator == 1 and rng.random() < 0.5)
                 kind = 'playat' if ref == '-' and rng.random() < 0.35 else 'ntog'
                 if kind == 'playat':
-                    ops.append(f'q playat {num(quant, qi)} {num(phase, pi)}')
+                    via = rng.choice(['clock', 'rplay', 'rrun', 'deco', 'resume'])
+                    form = rng.choice(['Q', 'Q', 'L'] + (['N'] if phase == 0 else []))
+                    ops.append(f'q playat {num(quant, qi)} {num(phase, pi)} {via}:{form}')
                 else:
                     ops.append(f'q ntog {num(quant, qi)} {num(phase, pi)} {ref}')
             elif r < 0.74:
@@ -249,6 +251,10 @@ class Check(common.Check):
         if prev is None:
             return None
         wake = prev['beats']
+        if prev['bbb'] != 0 or prev['bbar'] != 0 or prev['bpb'] != 4:
+            return {'what': f'a new clock ({case["init"]}) counts its grid from base_bar_beat {float(prev["bbb"])}, bar '
+                            f'{float(prev["bbar"])}, {float(prev["bpb"])} beats per bar; documented: beat 0, bar 0, 4 beats per bar '
+                            f'until the first meter change', 'signature': 'tempo:grid-origin'}
         if case.get('ticker'):
             # every routine on the clock is woken at the beat it was scheduled for
             d, n = F(case['ticker']['d']), case['ticker']['n']
